@@ -58,3 +58,14 @@ def seq_option_slice(quick):
     if quick:
         return sl
     return [o(q, s, tb) for q in ("droop", "hare") for s in (True, False) for tb in (None, "random", "borda", "first_place")]
+
+
+TIED3 = [
+    fam("AB>C", "A>BC", "ABC", "C>B"),
+    fam("A>B", "B>A", "C", "AC>B"),
+    fam("ABC", "A", "BC"),
+]
+
+
+def tied3(quick):
+    return TIED3[:2] if quick else TIED3
